@@ -1,7 +1,47 @@
 import Driver.Util
-/-! Line-protocol driver for C18 (not built yet). -/
+import GqlgenVerif.Model.Order
+import GqlgenVerif.Model.Naming
+/-! Line-protocol driver for C18: the order model on the harness's cases.
+
+  order <decl>|<decl>…   the package-level identifiers of the model file in the order the generator must write them
+                         (interfaces, models, enums each sorted by name; enum = type, constants, All… var), as
+                         predicted from a schema summary given in ANY order (same decl syntax as driver_c17 `emit`)
+  sort <hex>,<hex>…      `sort.Slice(…, Name <)` on names
+-/
+open GqlgenVerif GqlgenVerif.Naming
 namespace Driver.C18
-def step (_line : String) : String := "bad-op"
+
+def ofHex (h : String) : Option Name := unhex h
+def toHex (n : Name) : String := hex (bytesOf (String.ofList (n.map Char.ofNat)))
+
+def hexList (s : String) : Option (List Name) :=
+  if s = "" then some [] else (s.splitOn ",").mapM ofHex
+
+def parseField (s : String) : Option FieldDecl :=
+  match s.splitOn "/" with
+  | [] => none
+  | n :: args => do pure { name := ← ofHex n, args := ← args.mapM ofHex }
+
+def parseDecl (s : String) : Option TypeDecl :=
+  match s.splitOn ":" with
+  | [k, n, impls, fields, values] => do
+    let kind ← (match k with | "i" => some Kind.iface | "m" => some Kind.model | "e" => some Kind.enum | "r" => some Kind.root | _ => none)
+    let fs ← if fields = "" then some [] else (fields.splitOn ",").mapM parseField
+    pure { kind := kind, name := ← ofHex n, impls := ← hexList impls, fields := fs, values := ← hexList values }
+  | _ => none
+
+def step (line : String) : String :=
+  match line.splitOn " " with
+  | ["order", ds] =>
+    match (ds.splitOn "|").mapM parseDecl with
+    | some ts => ",".intercalate ((inScope Scope.pkg (emittedModels ts).1).map toHex)
+    | none => "bad-op"
+  | ["sort", l] =>
+    match hexList l with
+    | some ns => ",".intercalate ((Order.sortByKey id ns).map toHex)
+    | none => "bad-op"
+  | _ => "bad-op"
+
 end Driver.C18
 
 def main : IO Unit := do
